@@ -38,6 +38,26 @@ def _c24(field, s, extra=None):
         return "%s=%r: cmdline %r splits into %r but the executed argv is %r" % (field, s, line, back, list(argv))
     return None
 
+def _c24_exe(parts, as_list):
+    """the executable itself: one string, or a list of parts (multi-part command)"""
+    exe = list(parts) if as_list else parts[0]
+    try:
+        t = _Str(executable=exe, plain="v")
+        values = {k: x for k, x in attrs.asdict(t, recurse=False).items() if not k.startswith("_")}
+        argv = t._command_args(values=values)
+    except Exception:
+        T.reach()
+        return None
+    line = t.cmdline
+    T.reach()
+    try:
+        back = shlex.split(line)
+    except ValueError as e:
+        return "executable %r: cmdline %r cannot be parsed by a POSIX shell (%s); argv is %r" % (exe, line, e, list(argv))
+    if back != list(argv):
+        return "executable %r: cmdline %r splits into %r but the executed argv is %r" % (exe, line, back, list(argv))
+    return None
+
 def _c24_class(argv):
     """argv elements the space-only quoting cannot render"""
     for a in argv:
@@ -75,6 +95,13 @@ def build(tier, seed, exclude):
         err = _c24("plain", "v", extra=s)
         return T.fail(err) if err else True
     """, timeout=to)
+    # the executable: a single string, and the parts of a multi-part command given as a list
+    for nm, call, argv in (("h_executable_str", "_c24_exe([s], False)", "[s]"), ("h_executable_list_first", "_c24_exe([s, 'run'], True)", "[s]"),
+                           ("h_executable_list_second", "_c24_exe(['prog', s], True)", "[s]")):
+        g.cond(nm, "s: str", pre, f"""
+            err = {call}
+            return T.fail(err) if err else True
+        """, timeout=to)
     g.cond("twin_c24", "s: str", ["1 <= len(s) <= 2"], """
         err = _c24("plain", s)
         return False
@@ -83,4 +110,4 @@ def build(tier, seed, exclude):
         err = _c24("plain", "v", extra="it's")
         return T.fail(err) if err else True
     """)
-    return g.spec(bounds={"string length": f"1-{n}", "alphabet": "all of Unicode", "field kinds": C23.FIELDS + ["append_args"]})
+    return g.spec(bounds={"string length": f"1-{n}", "alphabet": "all of Unicode", "field kinds": C23.FIELDS + ["append_args", "executable (string / list parts)"]})
